@@ -72,6 +72,7 @@ class Mon(object):
         self.out.truncate(0)
         self.out.seek(0)
         self.wopen = True
+        self.typed = []                # every line given to onecmd through run() (for replays)
 
     def feed(self, data):
         if data:
@@ -91,6 +92,7 @@ class Mon(object):
         """-> (kind, value, text): kind in 'ret' | 'raise' | 'budget'."""
         self.out.truncate(0)
         self.out.seek(0)
+        self.typed.append(line)
         _FIRED[0] = False
         kind, val = 'budget', None
         try:
